@@ -292,4 +292,12 @@ def rule_c01r2(ctx):
     return r(ctx)
 
 
-RULES = [("C11-R1", rule_r1), ("C11-R2", rule_r2), ("C11-R3", rule_r3), ("C11-R4", rule_r4), ("C11-R5", rule_r5), ("C11-R6", rule_r6), ("C11-R7", rule_r7), ("C12-R5", rule_c12r5), ("C01-R2", rule_c01r2)]
+def rule_c06r5(ctx):
+    """A parameter captured by an inner scope lives in the function-entry dict: all five kinds of
+    parameters must be seeded there or the call fails with KeyError (shared rule C06-R5)."""
+    from .c06 import rule_r5 as r
+
+    return r(ctx)
+
+
+RULES = [("C06-R5", rule_c06r5), ("C11-R1", rule_r1), ("C11-R2", rule_r2), ("C11-R3", rule_r3), ("C11-R4", rule_r4), ("C11-R5", rule_r5), ("C11-R6", rule_r6), ("C11-R7", rule_r7), ("C12-R5", rule_c12r5), ("C01-R2", rule_c01r2)]
